@@ -45,6 +45,8 @@ var (
 	ErrInt64UnderflowsUint64 = errors.New("int64 underflows uint64")
 	// ErrFloat64UnderflowsUint64 is returned if when converting an float6464 to a uint64 underflow uint64
 	ErrFloat64UnderflowsUint64 = errors.New("float64 underflows uint64")
+	// ErrNotANumber is returned if a float value is NaN
+	ErrNotANumber = errors.New("value is not a number")
 	// ErrDivideByZero is returned if a coin amount is to be distributed among zero parts
 	ErrDivideByZero = errors.New("divide by zero")
 )
@@ -198,6 +200,14 @@ func Int64ToCoin(a int64) (Coin, error) {
 func Float64ToCoin(a float64) (Coin, error) {
 	if a < 0 {
 		return 0, ErrFloat64UnderflowsUint64
+	}
+	if a != a {
+		return 0, ErrNotANumber
+	}
+	// 1<<64 is the smallest float64 above math.MaxUint64: converting it or anything larger
+	// (including +Inf) to uint64 is not defined and yields a saturated or wrapped amount
+	if a >= 1<<64 {
+		return 0, ErrTooLarge
 	}
 	return Coin(a), nil
 }
